@@ -1,7 +1,7 @@
 (** C07 over the Go source (Generated/Src.v: DecodeSecret as translated from decoder.go; strings.TrimSpace,
     strings.ToUpper and base32.StdEncoding.DecodeString are the transcribed library functions of Model/Decoder.v). *)
 From Coq Require Import String.
-From OtpV Require Import Prelude Sha GoSem Rfc4648 Decoder Derive Otp Errors Base32Proofs Src SrcLift SrcEqOtp SrcTop C07.
+From OtpV Require Import Prelude Sha GoSem Rfc4648 Decoder Derive Otp Errors Base32Proofs Src SrcLift SrcTop SrcEqDecode C07.
 Open Scope N_scope.
 
 Theorem C07src_roundtrip : forall fuel bs s, wfb bs -> spelling bs s -> small s -> (length s < fuel)%nat ->
